@@ -266,7 +266,7 @@ class Check:
             self.cfgs.add(cfg)
         for j in jobs:
             j["trace"] = os.path.join(WORK, "%s-%s.ndjson" % (self.prop, j["tag"]))
-            j["n"] = record(j["cfg"], j["domain"], dict(j["args"], seed=self.seed), j["trace"],
+            j["n"] = record(j["cfg"], j["domain"], dict(j["args"], seed=self.seed * 1000 + j.get("chunk", 0)), j["trace"],
                             timeout=j.get("rec_timeout", 900))
 
         def val(j):
@@ -352,7 +352,7 @@ class Check:
         h = hashlib.sha1(json.dumps(sc["events"], sort_keys=True).encode()).hexdigest()[:10]
         path = os.path.join(V, "replay", "%s-%s-%s.json" % (self.prop, job["cfg"], h))
         json.dump({"property": self.prop, "cfg": job["cfg"], "domain": job["domain"], "spec": job["spec"],
-                   "harness_args": dict(job["args"], seed=self.seed), "line": idx,
+                   "harness_args": dict(job["args"], seed=self.seed * 1000 + job.get("chunk", 0)), "line": idx,
                    "rejected_event": ev, "script": sc["events"][-60:], "description": desc},
                   open(path, "w"), indent=1)
         self.violations.append((path, desc))
